@@ -459,7 +459,7 @@ impl Sys {
             Some(1_000_002) => panic!("callable panics"),
             Some(1_000_003) => std::panic::panic_any(7u32),
             Some(2_000_000) => {
-                std::thread::sleep(std::time::Duration::from_micros(300));
+                std::thread::sleep(std::time::Duration::from_micros(40));
                 Ok(echo)
             }
             Some(_) => {
@@ -1772,7 +1772,8 @@ fn start_watchdog(dir: std::path::PathBuf, family: String) {
     std::thread::spawn(move || loop {
         std::thread::sleep(std::time::Duration::from_millis(500));
         let t0 = OP_STARTED.load(Ordering::SeqCst);
-        let limit = if family == "seq" { 20_000 } else { 600_000 };
+        let limit = 20_000;
+        let _ = &family;
         if t0 != 0 && now_ms().saturating_sub(t0) > limit {
             let (line, mut trail) = CURRENT.lock().map(|g| g.clone()).unwrap_or_default();
             trail.push(line.clone());
@@ -1837,8 +1838,9 @@ fn main() {
         };
         out.begin(&line);
         *CURRENT.lock().unwrap() = (line.clone(), ctx.trail.clone());
-        OP_STARTED.store(now_ms(), Ordering::SeqCst);
         let name = line.split(' ').next().unwrap_or("");
+        // the watchdog times single registry calls, not the composite lines (an enumeration, a race loop)
+        OP_STARTED.store(if name == "enum" || name == "conc" { 0 } else { now_ms() }, Ordering::SeqCst);
         match name {
             "conc" => exec_conc(&mut out, &line),
             "enum" => {
